@@ -542,8 +542,15 @@ class SymBytes:
     def __bool__(self):
         return len(self.segs) > 0
 
+    def __bytes__(self):
+        if all(s[0] == "c" for s in self.segs):
+            return b"".join(s[1] for s in self.segs)
+        raise Unsupported("bytes() of symbolic content")
+
     def __getitem__(self, sl):
         if not isinstance(sl, slice):
+            if isinstance(sl, int) and all(s[0] == "c" for s in self.segs):
+                return bytes(self)[sl]
             raise Unsupported("SymBytes[int]")
         if sl.step is not None:
             raise Unsupported("SymBytes slice with step")
